@@ -190,6 +190,45 @@ func Run(r *fw.Run) {
 		}
 	}
 
+	// (a2) long structured versions (composed from part lists, well beyond the length bound): unary agreement
+	nums := []string{"0", "1", "9", "10", "01", "18446744073709551615", "18446744073709551616", "100000000000000000000000000000", "00"}
+	pparts := []string{"", "-0", "-1", "-a", "-a.b", "-0.a", "-a-b", "-rc-10", "-rc-9", "-01", "-a..b", "-a.", "-", "-20190101000000-abcdefabcdef", "-0.20190101000000-abcdefabcdef", "-alpha.beta.gamma.delta.1.2.3", "-" + strings.Repeat("x", 70), "-é"}
+	bparts := []string{"", "+a", "+incompatible", "+meta-data", "+a.b-c.01", "+", "+a..b", "+a+b", "+" + strings.Repeat("9", 40)}
+	var longs []string
+	for _, a := range nums {
+		for _, b := range nums {
+			for _, c := range nums {
+				for _, p := range pparts {
+					for _, d := range bparts {
+						longs = append(longs, "v"+a+"."+b+"."+c+p+d)
+					}
+				}
+			}
+		}
+		for _, p := range pparts {
+			longs = append(longs, "v"+a+p, "v"+a+"."+a+p)
+		}
+	}
+	r.Bounds["long_structured_versions"] = len(longs)
+	fw.Parallel(16, func(sh int) {
+		l := fw.NewLocal()
+		for i := sh; i < len(longs); i += 16 {
+			l.States++
+			l.Execs++
+			msg, valid := unary(longs[i])
+			if valid {
+				l.Nontrivial++
+				l.Outcomes["unary:valid"]++
+			} else {
+				l.Outcomes["unary:invalid"]++
+			}
+			if msg != "" {
+				r.Violation("unary:"+strconv.QuoteToASCII(longs[i]), msg, caseT{"unary", q(longs[i])})
+			}
+		}
+		r.Merge(l)
+	})
+
 	// (b) pairs
 	seen := map[string]bool{}
 	var V []string
